@@ -1,5 +1,7 @@
 SPECIFICATION Spec
-CONSTANT Prop = "C17"
+CONSTANTS
+  Prop = "C17"
+  Chunk = 250
 INVARIANT RecordOK
 POSTCONDITION TraceAccepted
 CHECK_DEADLOCK FALSE
